@@ -13,8 +13,6 @@ NOT_APPLICABLE = {
     'C18': 'privacy is a property of rendered text built inline in render functions from formatted strings; no contract on those functions is expressible with the installed verifiers.',
     'C20': 'schedule property over threads sharing parking_lot::RwLock<State>: Kani has no thread support and Verus reasons about locks only through its own vstd::rwlock permission types, which the real code does not use (rewriting onto them would be proving a model).',
 }
-for _p in ('C02','C11','C15'):
-    NOT_APPLICABLE[_p] = 'check under construction in this session (see DESIGN.md section 3 for the planned contracts); not claimed until its obligations are discharged by bin/check'
 
 import re as _re
 
@@ -73,8 +71,8 @@ PROPS = {
         'technique': 'Verus: every accessor of every packet view free of panics/overflow for any buffer >= minimum size; Kani no-panic harnesses',
         'level_text': 'Layer (a): for every public accessor of every packet view Verus discharges every slice index, range, copy length and arithmetic-overflow obligation under the single precondition len >= minimum size (unbounded buffer length), and termination/progress of the two extension iterators. Layer (b) (receive path of trippy-core) is decided by Kani harnesses on the real functions.',
         'level_note': 'Trusted: shims (from_be_bytes, to_be_bytes, address conversions), Buffer::get_bytes contract (Kani-discharged). Bounded stand-ins are labelled and not counted. platform/unix.rs socket code and ArrayVec capacity in dispatch_tcp_probe are outside.',
-        'units': ['pkt_views', 'core_strategy'],
-        'kani': {'quick': PKT_NOPANIC_HARNESSES},
+        'units': ['pkt_views', 'core_strategy', 'core_net_build'],
+        'kani': {'quick': PKT_NOPANIC_HARNESSES + ['k4_recv_nopanic_icmp', 'k4_recv_nopanic_udp', 'k4_recv_nopanic_tcp']},
         'assumptions': ['setters additionally require a mutable view and (set_payload) a payload that fits: caller obligations, discharged at the call sites in unit core_net_build'],
         'explanation': 'no-panic obligations of packet views',
     },
@@ -131,9 +129,39 @@ PROPS = {
         'technique': 'Verus contracts on nat_status, update_for_probe (checksum carry-forward), StateUpdater::new, ProtocolStrategyResponse::from',
         'level_text': 'nat_status returns Detected iff the quoted checksum differs from the previous responding hop\'s (or from the expected checksum for the first responding hop) and never NotApplicable; update_for_probe stores the result and carries the actual checksum forward exactly for Complete probes that carry both checksums, leaves last_nat_status and the carry untouched otherwise; the carry starts empty each round; checksums are present exactly for Dublin over IPv4/UDP, so every other configuration stays NotApplicable.',
         'level_note': 'That the expected checksum equals the checksum of the probe as sent (calc_udp_checksum vs dispatch) is part of C11 (Kani harness on the real builders).',
-        'units': ['core_state', 'core_strategy'],
+        'units': ['core_state', 'core_strategy', 'core_net_build'],
         'assumptions': [],
         'explanation': 'NAT detection',
+    },
+    'C02': {
+        'level': 'proof',
+        'technique': 'Verus contracts on probe_*_data, ProtocolStrategyResponse::from, validate against tables written from the property, plus round-trip / rejection lemmas; Kani round trip of real bytes through dispatch -> ICMP quotation -> recv_icmp_probe',
+        'level_text': 'probe_icmp_data/probe_udp_data/probe_tcp_data are proved equal to the carrier table spec_probe_fields for every supported configuration (and never reach unimplemented!()); ProtocolStrategyResponse::from recovers the sequence from exactly the prescribed field (spec_recover_sequence); validate accepts exactly quotations with this tracer\'s destination, fixed port(s) and, for Dublin/IPv6, the marker. Lemma L1: for every supported configuration, every issuable sequence and round, the quotation of the probe is validated, passes the trace-id check and yields that sequence; L2: other destination, other fixed port or missing marker is rejected. The wire map assumed by L1 (ports->ports, IP id->identifier, UDP checksum field->actual checksum, UDP length->payload length) is checked on the real builders/parsers by Kani harnesses (bounded).',
+        'level_note': 'Kani round-trip harnesses are bounded (concrete packet size 33, quotation = IP header+8 octets or full datagram, IPv4) and not counted as proved. TCP handshake answers (recv_tcp_socket) need a live socket: only field plumbing. IPv6 quotations: parser functions covered by the no-panic harnesses only.',
+        'units': ['core_strategy'],
+        'kani': {'quick': ['k4_roundtrip_icmp', 'k4_roundtrip_udp']},
+        'assumptions': [],
+        'explanation': 'probe identity round trip',
+    },
+    'C11': {
+        'level': 'proof',
+        'technique': 'modular Verus proof of the real packet builders of net/ipv4.rs and net/ipv6.rs against the imported contracts of the packet codec (pkt_views, pkt_checksum); Kani harnesses on the real dispatch functions with a capturing socket',
+        'level_text': 'make_ipv4_packet is proved to produce, for every payload and configuration, a header with version 4, IHL 5, the configured TOS, total length 20+payload in network order, the given identification, DF set / offset 0, the probe ttl, the protocol number, source and destination addresses and the payload at octet 20 (RFC 791 positions); make_udp_packet (v4 and v6): ports, length = 8+payload, payload, checksum = RFC 1071 over pseudo header and datagram; make_echo_request_icmp_packet (v4 and v6): type 8/128, code 0, identifier, sequence, pattern payload, checksum; payload-size helpers make the total size equal the configured packet size. All slice bounds of the builders are discharged at their call preconditions.',
+        'level_note': 'The codec is used through contracts proved in units pkt_views / pkt_checksum (imported, not re-verified). dispatch_* (socket calls, error mapping closures, Paris swap) are covered by bounded Kani harnesses with concrete packet sizes 28 and 33 (all other inputs symbolic), not by Verus. Non-raw/unprivileged paths and TCP: argument plumbing only; the IPv4 header checksum is the kernel\'s. Trusted: pattern_array/zero_array shims for `[x; N]`.',
+        'units': ['core_net_build'],
+        'kani': {'quick': ['k4_dispatch_icmp_28', 'k4_dispatch_icmp_33', 'k4_dispatch_udp_28', 'k4_dispatch_udp_33', 'k4_dispatch_udp_paris']},
+        'assumptions': ['Linux target: Ipv4ByteOrder::Host is compiled out'],
+        'explanation': 'probe wire format',
+    },
+    'C15': {
+        'level': 'proof',
+        'technique': 'Verus contract on State::update_from_round / update_trace_flow over ghost views of the registry and the per-flow map, with the registry contract imported; bounded Kani stand-ins for flows.rs',
+        'level_text': 'State::update_from_round is proved to keep identifiers dense from 1 and stable, never to exceed max_flows, to count every round for the default flow, to attribute a round that matches a registered flow to the first such flow (its round count +1, round_flow_id set) also once max_flows is reached, and to touch no other flow. The registry operations themselves (Flow::check / merge / from_hops, FlowRegistry::register / contains_match) are iterator-adapter code: bounded Kani stand-ins (flows <= 3 entries, <= 2 registered flows).',
+        'level_note': 'Trusted in the Verus unit: the contract of FlowRegistry::register / contains_match (as checked bounded by Kani), HashMap entry shim, FlowState::update_from_round contract (unit core_state), and round_flow(): the inline iterator chain that builds the round\'s flow (position <-> ttl) is NOT verified (D-C15b in DESIGN.md). Bounded stand-ins are not counted as proved.',
+        'units': ['core_state_flows'],
+        'kani': {'quick': ['k_flow_check_contract', 'k_flow_merge_contract', 'k_flow_from_hops_contract', 'k_registry_register_contract']},
+        'assumptions': [],
+        'explanation': 'flow attribution',
     },
     'C03': {
         'level': 'proof',
@@ -196,8 +224,8 @@ PROPS = {
         'technique': 'Verus contracts on the real checksum functions (loop invariants, RFC 1071 spec function, fold/verify lemmas)',
         'level_text': 'Unbounded deductive proof: every public checksum function of trippy-packet/src/checksum.rs equals the RFC 1071 one\'s-complement checksum (with pseudo-header) of the data with the checksum field zeroed, for all data of length <= 65535 and all addresses; lemma: inserting the result makes the datagram sum fold to 0xFFFF.',
         'level_note': 'Trusted: Verus/Z3; shims u16::from_be_bytes, <[u8]>::try_into, Ipv4Addr::octets, ipv6_word_sum (iterator sum of segments); precondition len <= 65535.',
-        'units': ['pkt_checksum'],
-        'kani': {},
+        'units': ['pkt_checksum', 'core_net_build'],
+        'kani': {'quick': ['k4_dispatch_udp_paris']},
         'assumptions': [
             'data.len() <= 65535 (callers pass <= 1024-byte buffers); beyond that the u32 accumulator can overflow',
             'Ipv4Addr::octets / Ipv6Addr::segments are uninterpreted (spec_octets4 / spec_segments6); ipv6_word_sum (iterator adapters) is a trusted shim: sum of the 8 segments',
